@@ -282,7 +282,18 @@ func drawConstructedSource(r *sim.Run) *objSource {
 	var b mp4.Box
 	var err error
 	name := ""
-	switch t.Draw(16) {
+	switch t.Draw(17) {
+	case 16:
+		// track encryption boxes over versions, protection flag, per-sample IV sizes and constant IVs
+		kid := mp4.UUID(fill(16))
+		tb := &mp4.TencBox{Version: byte(t.Draw(2)), DefaultIsProtected: byte(t.Draw(2)), DefaultPerSampleIVSize: []byte{0, 8, 16}[t.Draw(3)], DefaultKID: kid}
+		if tb.Version == 1 {
+			tb.DefaultCryptByteBlock, tb.DefaultSkipByteBlock = byte(t.Draw(10)), byte(t.Draw(10))
+		}
+		if tb.DefaultPerSampleIVSize == 0 && t.Chance(700) {
+			tb.DefaultConstantIV = fill([]int{8, 16}[t.Draw(2)])
+		}
+		b, name = tb, fmt.Sprintf("TencBox{v%d protected=%d ivSize=%d constIV=%d}", tb.Version, tb.DefaultIsProtected, tb.DefaultPerSampleIVSize, len(tb.DefaultConstantIV))
 	case 15:
 		// a track run built through its own methods: default creation flags, 0-4 samples, optionally first-sample flags
 		// on top of per-sample flags, seeded data offset
@@ -375,7 +386,14 @@ func drawConstructedSource(r *sim.Run) *objSource {
 		name = fmt.Sprintf("CreateAvcC(profile %d, %d SPS, %d PPS)", sps[1], len(spss), len(ppss))
 	case 9:
 		var h *mp4.HvcCBox
-		h, err = mp4.CreateHvcC([][]byte{c19HevcVPS}, [][]byte{c19HevcSPS}, [][]byte{c19HevcPPS}, t.Bool(), t.Bool(), t.Bool(), t.Bool())
+		vps, pps := [][]byte{c19HevcVPS}, [][]byte{c19HevcPPS}
+		if t.Chance(300) {
+			vps = nil // a configuration record without VPS: its array is present but empty
+		}
+		if t.Chance(200) {
+			pps = nil
+		}
+		h, err = mp4.CreateHvcC(vps, [][]byte{c19HevcSPS}, pps, t.Bool(), t.Bool(), t.Bool(), t.Bool())
 		if err == nil {
 			b = h
 		}
